@@ -204,13 +204,35 @@ def runH : Heap → List HOp → Heap × List (Except ErrKind (Option Nat))
       let r := runH h' rest
       (r.1, .ok out :: r.2)
 
-/-! ### the four strings through a written file -/
+/-! ### the four strings through a written file (no SpecificCharacterSet: pydicom's default repertoire, ISO 8859-1) -/
 
-/-- what pydicom's reader returns for a string it wrote: trailing blanks and NULs (the padding characters) are gone -/
-def stripTrailing (s : String) : String :=
-  String.ofList (s.toList.reverse.dropWhile (fun c => c == ' ' || c == '\x00')).reverse
+/-- what the writer makes of a character: code points above 255 cannot be encoded in the default repertoire and become `?` -/
+def toDefaultRepertoire (c : Char) : Char := if c.val < 256 then c else '?'
+
+/-- padding characters of the text VRs (SH, LO, UC): blank and NUL -/
+def isPad (c : Char) : Bool := c == ' ' || c == '\x00'
+
+/-- Python's `str.isspace` on the default repertoire (what `rstrip()` without argument removes) -/
+def isPyWhitespace (c : Char) : Bool :=
+  c.val == 9 || c.val == 10 || c.val == 11 || c.val == 12 || c.val == 13 || c.val == 28 || c.val == 29 || c.val == 30 ||
+  c.val == 31 || c.val == 32 || c.val == 133 || c.val == 160
+
+/-- drop the trailing characters that satisfy `p` -/
+def stripTrailingBy (p : Char → Bool) (s : String) : String :=
+  String.ofList (s.toList.reverse.dropWhile p).reverse
+
+/-- trailing blanks and NULs (the padding characters) are gone -/
+def stripTrailing (s : String) : String := stripTrailingBy isPad s
+
+/-- which trailing characters pydicom's reader removes from the value of attribute `kw`: all white space for the UR value
+of URNCodeValue (`rstrip()`), the padding characters everywhere else -/
+def stripSet (kw : String) : Char → Bool := if kw = "URNCodeValue" then isPyWhitespace else isPad
+
+/-- a string written into attribute `kw` and read back -/
+def readBack (kw : String) (s : String) : String :=
+  stripTrailingBy (stripSet kw) (String.ofList (s.toList.map toDefaultRepertoire))
 
 /-- a concept's dataset after `dcmwrite` + `dcmread` -/
-def fileRoundTrip (d : DS) : DS := d.map (fun e => (e.1, stripTrailing e.2))
+def fileRoundTrip (d : DS) : DS := d.map (fun e => (e.1, readBack e.1 e.2))
 
 end HdVerif.Coding
